@@ -112,7 +112,16 @@ def build_harness(log):
     """returns (ok, features dict, output). Feature fallbacks: the hook (needs --cfg wayfind_verif and the names the
     hook touches) and the compile-time Send/Sync assertion are each dropped only if the build fails with them."""
     with Lock(".cargo.lock"):
-        attempts = [(["hook", "hookdata", "sendsync"], True), (["hook", "sendsync"], True), (["hook", "hookdata"], True), (["hook"], True), (["sendsync"], False), ([], False)]
+        # every feature on; if that does not build, the feature sets with one, then two … features dropped, in this order of
+        # preference (each feature stands for something of /repo the harness touches beyond the public API)
+        allf = ["hook", "hookdata", "sendsync", "ocisrc"]
+        import itertools
+        attempts = []
+        for k in range(len(allf) + 1):
+            for drop in itertools.combinations(["hookdata", "ocisrc", "sendsync", "hook"], k):
+                feats = [f for f in allf if f not in drop and not (f == "hookdata" and "hook" in drop)]
+                if (feats, "hook" in feats) not in attempts:
+                    attempts.append((feats, "hook" in feats))
         first_out = None
         for feats, cfg in attempts:
             cmd = ["cargo", "build", "--offline", "--no-default-features"]
@@ -122,7 +131,7 @@ def build_harness(log):
             if first_out is None:
                 first_out = out
             if rc == 0:
-                if feats != ["hook", "hookdata", "sendsync"]:
+                if feats != allf:
                     log.append("harness built with features " + str(feats))
                 return True, dict(hook="hook" in feats, sendsync="sendsync" in feats, first_output=first_out), out
         return False, dict(hook=False, sendsync=False, first_output=first_out), first_out
